@@ -326,6 +326,9 @@ def normalise(scn):
     return scn
 
 
+ACTIVE_DEFECTS = {"lock-handler-crash", "unpicklable-args", "unpicklable-result", "oversize-result"}
+
+
 def oracle(scn, r):
     """Property clauses evaluated on the real outcome. Returns list of (signature, summary)."""
     out = []
@@ -345,9 +348,12 @@ def oracle(scn, r):
                 if r["vec"][c["id"]] != "-":
                     continue
                 own = KINDS[c["kind"]][1]
-                if own and (c["place"] == "rem" or own == "lock-handler-crash"):
+                # a defect feature explains a hang only while the probe shows that loss path still exists in the source
+                if own == "lock-handler-crash" and crashed and own in ACTIVE_DEFECTS:
                     causes.add(own)
-                elif crashed and has_funlock:
+                elif own and own != "lock-handler-crash" and c["place"] == "rem" and own in ACTIVE_DEFECTS:
+                    causes.add(own)
+                elif crashed and has_funlock and "lock-handler-crash" in ACTIVE_DEFECTS:
                     causes.add("lock-handler-crash")
                 elif scn["fault"] == "stopA" and c["place"] == "rem":
                     causes.add("own-context-stopped")
@@ -390,6 +396,20 @@ def probe_cfg():
                   "prelocked": False, "n": 1}, 0, probe_after=False)
     res_bit = "1" if (r["deadlock"] or "-" in r["vec"]) else "0"
     return "".join(bits), res_bit
+
+
+def _probe_and_set():
+    cfgbits, res_bit = probe_cfg()
+    ACTIVE_DEFECTS.clear()
+    if cfgbits[0] == "1":
+        ACTIVE_DEFECTS.add("lock-handler-crash")
+    if cfgbits[1] == "1":
+        ACTIVE_DEFECTS.add("unpicklable-args")
+    if res_bit == "1":
+        ACTIVE_DEFECTS.add("unpicklable-result")
+    if cfgbits[2] == "1":
+        ACTIVE_DEFECTS.add("oversize-result")
+    return cfgbits, res_bit
 
 
 class C01(Prop):
@@ -452,7 +472,7 @@ class C01(Prop):
                           "lock query/unserialisable args or result/oversize result/force-unlock) × fault (remove, stop of either "
                           "context, disconnect) × pre-locked; each run under several seeded schedules (weighted + PCT); case = "
                           "(scenario, observed outcome vector); non-trivial = has a fault or a defect feature")
-        cfgbits, res_bit = probe_cfg()
+        cfgbits, res_bit = _probe_and_set()
         res.extra["probed_model_cfg"] = {"lockCrash": cfgbits[0], "pickleEscapes(args)": cfgbits[1],
                                          "pickleEscapes(result)": res_bit, "oversizeReplyDropped": cfgbits[2]}
         res.extra["applicable_theorems"] = (
@@ -509,6 +529,7 @@ class C01(Prop):
 
     def search(self, ctx: Ctx, broken) -> Result:
         res = Result()
+        _probe_and_set()
         cases = [b.case for b in broken if b.case and "scn" in b.case]
         base = cases[:6] or [{"scn": normalise(gen_scenario(ctx.rng, allow_defects=False)), "seed": "s"} for _ in range(6)]
         for c in base:
@@ -526,6 +547,7 @@ class C01(Prop):
         return res
 
     def replay(self, ctx: Ctx, rp: dict):
+        _probe_and_set()
         r = run_real(rp["scn"], rp["seed"], policy=rp.get("policy", "weighted"), change_points=rp.get("change_points"))
         fs = oracle(rp["scn"], r)
         if fs:
